@@ -98,7 +98,14 @@ func judgeE2E(spec outSpec, o e2eObs) (pick int, tie string, fl *failure) {
 	names := outRoutes[o.Route].Expected
 	group := refGroup(spec.Windows, spec.Sel, o.Clock.At.UnixNano())
 	if len(group) == 0 {
-		return judge(spec, o.Clock.At, names, o.Got) // any request is a failure
+		if len(o.Got) == 0 {
+			return pickNone, noTie, nil
+		}
+		_, _, fl = judge(spec, o.Clock.At, names, o.Got[:1]) // any request is a failure
+		if fl != nil {
+			fl.Key = "e2e:" + fl.Key
+		}
+		return pickFailed, noTie, fl
 	}
 	if len(o.Got) != len(urlPaths) {
 		return pickFailed, noTie, &failure{"e2e:push-count", fmt.Sprintf("%d push requests for %d targets of %s; %s clock=%s", len(o.Got), len(urlPaths), routeOf(o.Var, o.Route), spec, o.Clock.Label)}
